@@ -34,24 +34,20 @@ def IsEmph (m : CoreM) : Prop := m.kind = .strong ∨ m.kind = .emphasis
 instance (m : CoreM) : Decidable (IsEmph m) := by unfold IsEmph; exact inferInstance
 
 /-- **Emphasis matches are well formed.**  Every `Strong`/`Emphasis` match that `find_core_tokens`
-    returns lies inside the string, has an opening delimiter `[start, ts)`, a text `[ts, te)` and a
-    closing delimiter `[te, stop)` in this order, the two delimiters have the same width, the
-    width is 2 for `Strong` and 1 for `Emphasis`, and the token's `delimiter` attribute is the
-    first character of the opening delimiter.
-
-    The further clause "all delimiter characters equal `delimiter`, which is `*` or `_`" is FALSE,
-    on the model and on the implementation alike; see `delimiter_not_star` and
-    `closing_delimiter_eats_backslash` below. -/
+    returns lies inside the string, has an opening delimiter `[start, ts)`, a non-empty text
+    `[ts, te)` and a closing delimiter `[te, stop)` in this order, the two delimiters have the same
+    width, the width is 2 for `Strong` and 1 for `Emphasis`, and the token's `delimiter` attribute
+    is the first character of the opening delimiter. -/
 theorem C06_emphasis_wellformed (s : Str) (fn : Footnotes.Table) (ms : List CoreM) (codes : List InlineScan.CodeM)
     (h : findCoreTokens s fn = .ok (ms, codes)) :
     ∀ m ∈ ms, IsEmph m →
-      m.start < m.ts ∧ m.ts ≤ m.te ∧ m.te < m.stop ∧ m.stop ≤ s.length ∧
+      m.start < m.ts ∧ m.ts < m.te ∧ m.te < m.stop ∧ m.stop ≤ s.length ∧
       m.ts - m.start = m.stop - m.te ∧
       ((m.kind = .strong ∧ m.ts - m.start = 2) ∨ (m.kind = .emphasis ∧ m.ts - m.start = 1)) ∧
       s[m.start]? = some m.delimiter := by
   intro m hm he
-  have hw := emphasis_wellformed s fn ms codes h m hm he
-  exact ⟨hw.lt_ts, hw.ts_le, hw.te_lt, hw.stop_le, hw.width, hw.kind, hw.delim⟩
+  obtain ⟨hw, hne⟩ := emphasis_wellformed s fn ms codes h m hm he
+  exact ⟨hw.lt_ts, hne, hw.te_lt, hw.stop_le, hw.width, hw.kind, hw.delim⟩
 
 /-- **Emphasis matches nest.**  In the list `find_core_tokens` returns (in the order the matches
     were found), a `Strong`/`Emphasis` match found earlier (`a`) and one found later (`b`) are
@@ -80,21 +76,21 @@ theorem C06_emphasis_disjoint_or_nested (s : Str) (fn : Footnotes.Table) (ms : L
     · exact Or.inl h1
     · exact Or.inr (Or.inr (Or.inr h1))
 
-/-- **Delimiter characters (partial).**  The target clause "the characters of both delimiters of an
-    emphasis match are all equal to its `delimiter` attribute, which is `*` or `_`" is false in
-    general (`delimiter_not_star`, `closing_delimiter_eats_backslash` below).  Hypothesis added:
-    the text contains no backslash.  Both ways the clause fails go through `escaped`: an escaped
-    character lets `in_image` survive up to a `[`, and a backslash that ends the text is taken
-    into the pending delimiter run.  Without a backslash neither can happen, and the clause holds
-    for every text and every table of definitions. -/
-theorem C06_emphasis_delimiters_partial (s : Str) (fn : Footnotes.Table) (hbs : '\\' ∉ s)
+/-- **Delimiter characters.**  For every text and every table of definitions, the characters of
+    both delimiters of every `Strong`/`Emphasis` match are all equal to the token's `delimiter`
+    attribute, which is `*` or `_`.
+
+    This was false for the code as first pinned (`!\*[a*` gave an `Emphasis` whose opening delimiter
+    was `[`; `**a *b**\` gave a `Strong` whose closing delimiter was `*\`); it holds for the code
+    repaired by /repo commits 88886ba and 501955e, which this model follows: see the examples at the end of this file. -/
+theorem C06_emphasis_delimiters (s : Str) (fn : Footnotes.Table)
     (ms : List CoreM) (codes : List InlineScan.CodeM) (h : findCoreTokens s fn = .ok (ms, codes)) :
     ∀ m ∈ ms, IsEmph m →
       (m.delimiter = '*' ∨ m.delimiter = '_') ∧
       (∀ k, m.start ≤ k → k < m.ts → s[k]? = some m.delimiter) ∧
       (∀ k, m.te ≤ k → k < m.stop → s[k]? = some m.delimiter) := by
   intro m hm he
-  have hc := emphasis_chars s fn hbs ms codes h m hm he
+  have hc := emphasis_chars s fn ms codes h m hm he
   exact ⟨hc.star, hc.opening, hc.closing⟩
 
 /-! Non-vacuity: the kernel evaluates the model on concrete texts. -/
@@ -131,7 +127,7 @@ example : ∃ ks, Inline.tokenizeInner [.escapeSequence, .coreTokens, .inlineCod
 
 example : ∀ m ∈ [({ start := 1, stop := 6, kind := .strong, ts := 3, te := 4, dest := [], title := [], delimiter := '*' } : CoreM),
                   { start := 0, stop := 9, kind := .emphasis, ts := 1, te := 8, dest := [], title := [], delimiter := '*' }],
-    IsEmph m → m.start < m.ts ∧ m.ts ≤ m.te ∧ m.te < m.stop ∧ m.stop ≤ "***a** b*".toList.length ∧
+    IsEmph m → m.start < m.ts ∧ m.ts < m.te ∧ m.te < m.stop ∧ m.stop ≤ "***a** b*".toList.length ∧
       m.ts - m.start = m.stop - m.te ∧
       ((m.kind = .strong ∧ m.ts - m.start = 2) ∨ (m.kind = .emphasis ∧ m.ts - m.start = 1)) ∧
       "***a** b*".toList[m.start]? = some m.delimiter :=
@@ -142,30 +138,29 @@ example : ∀ m ∈ [({ start := 1, stop := 6, kind := .strong, ts := 3, te := 4
     IsEmph m → (m.delimiter = '*' ∨ m.delimiter = '_') ∧
       (∀ k, m.start ≤ k → k < m.ts → "***a** b*".toList[k]? = some m.delimiter) ∧
       (∀ k, m.te ≤ k → k < m.stop → "***a** b*".toList[k]? = some m.delimiter) :=
-  C06_emphasis_delimiters_partial "***a** b*".toList [] (by decide) _ [] (by decide +kernel)
+  C06_emphasis_delimiters "***a** b*".toList [] _ [] (by decide +kernel)
 
-/-! ### Counterexamples to "the delimiter characters are all `delimiter` ∈ {`*`, `_`}"
+/-! ### The inputs on which the delimiter-character clause failed before the repair
 
-  Both are reproduced by the implementation (`mistletoe.markdown`):
+  * `!\*[a*` used to give an `Emphasis` `[3, 6)` with `delimiter = '['` (rendered
+    `<p>!*<em>a</em></p>`): `in_image` survived the escaped `*`, so the `![` delimiter was built
+    from `"*["`.  Now `in_image` is reset by an escaped character and by a code span.
+  * `**a *b**\` used to give a `Strong` `[0, 9)` whose closing delimiter was `*\` (the trailing
+    backslash was lost): the pending run was closed by `Delimiter(start, i, string)` without
+    looking at `escaped`.  Now the run ends before the backslash.
+  * `!` + a code span + `[a](b)` lost its link for the same reason as the first. -/
 
-  * `!\*[a*` renders as `<p>!*<em>a</em></p>` (CommonMark: `<p>!*[a*</p>`).  `in_image` survives
-    the escaped `*`, so at `[` the image delimiter is built from `string[i-1:i+1] = "*["`, which
-    `startswith('*')` and so takes part in `process_emphasis` as a two-character emphasis run; the
-    `Emphasis` token swallows the `[` and its `delimiter` attribute is `'['`.
-  * `**a *b**\` renders as `<p><strong>a <em>b</em></strong></p>`: the trailing backslash is lost.
-    At the end of the string the pending run is closed by `Delimiter(start, i, string)` without
-    looking at `escaped`, so the run is `**\`; its remainder `*\` closes the `Strong`. -/
+/-- no emphasis any more; `mistletoe.markdown` gives `<p>!*[a*</p>` -/
+example : findCoreTokens "!\\*[a*".toList [] = .ok ([], []) := by decide +kernel
 
-/-- an `Emphasis` whose opening delimiter character, and `delimiter` attribute, is `[` -/
-theorem delimiter_not_star : findCoreTokens "!\\*[a*".toList [] =
-    .ok ([{ start := 3, stop := 6, kind := .emphasis, ts := 4, te := 5, dest := [], title := [], delimiter := '[' }], []) := by
-  decide +kernel
-
-/-- a `Strong` whose closing delimiter `[7, 9)` is `*\` -/
-theorem closing_delimiter_eats_backslash : findCoreTokens "**a *b**\\".toList [] =
+/-- two nested `Emphasis` whose delimiters are all `*`, the backslash stays outside;
+    `mistletoe.markdown` gives `<p>*<em>a <em>b</em></em>\</p>` -/
+example : findCoreTokens "**a *b**\\".toList [] =
     .ok ([{ start := 4, stop := 7, kind := .emphasis, ts := 5, te := 6, dest := [], title := [], delimiter := '*' },
-          { start := 0, stop := 9, kind := .strong, ts := 2, te := 7, dest := [], title := [], delimiter := '*' }], []) ∧
-    "**a *b**\\".toList[8]? = some '\\' := by
+          { start := 1, stop := 8, kind := .emphasis, ts := 2, te := 7, dest := [], title := [], delimiter := '*' }], []) := by
   decide +kernel
+
+/-- the link after `!` and a code span is found -/
+example : spans "!`x`[a](b)" = some [(4, 5, 6, 10, .link)] := by decide +kernel
 
 end Mistletoe.Props.C06
